@@ -12,6 +12,26 @@ extern "C" __attribute__((used, visibility("default"))) const char* __ubsan_defa
   return "exitcode=77:print_stacktrace=1:halt_on_error=1";
 }
 
+namespace sim { long long g_global_new_live = 0; int g_track_global_new = 0; long long g_tracked_global_live = 0;
+  static const size_t TRACK_SLOTS = 1 << 18; static void* g_tracked[TRACK_SLOTS];
+  static inline size_t track_slot(void* p) { return (reinterpret_cast<uintptr_t>(p) >> 4) * 0x9E3779B97F4A7C15ULL >> (64 - 18); }
+  static inline void track_add(void* p) { size_t i = track_slot(p); for (size_t n = 0; n < TRACK_SLOTS; n++, i = (i + 1) & (TRACK_SLOTS - 1)) if (g_tracked[i] == nullptr || g_tracked[i] == reinterpret_cast<void*>(1)) { g_tracked[i] = p; ++g_tracked_global_live; return; } }
+  static inline void track_remove(void* p) { size_t i = track_slot(p); for (size_t n = 0; n < TRACK_SLOTS && g_tracked[i] != nullptr; n++, i = (i + 1) & (TRACK_SLOTS - 1)) if (g_tracked[i] == p) { g_tracked[i] = reinterpret_cast<void*>(1); --g_tracked_global_live; return; } }
+  static inline void* counted_alloc(std::size_t n) { void* p = std::malloc(n ? n : 1); if (p) { ++g_global_new_live; if (g_track_global_new > 0) track_add(p); } return p; }
+  static inline void counted_free(void* p) { if (p) { --g_global_new_live; if (g_tracked_global_live > 0) track_remove(p); std::free(p); } }
+}
+// replacement global allocation functions (one definition per binary): malloc/free underneath, so ASan still sees every block
+void* operator new(std::size_t n) { void* p = sim::counted_alloc(n); if (!p) throw std::bad_alloc(); return p; }
+void* operator new[](std::size_t n) { void* p = sim::counted_alloc(n); if (!p) throw std::bad_alloc(); return p; }
+void* operator new(std::size_t n, const std::nothrow_t&) noexcept { return sim::counted_alloc(n); }
+void* operator new[](std::size_t n, const std::nothrow_t&) noexcept { return sim::counted_alloc(n); }
+void operator delete(void* p) noexcept { sim::counted_free(p); }
+void operator delete[](void* p) noexcept { sim::counted_free(p); }
+void operator delete(void* p, std::size_t) noexcept { sim::counted_free(p); }
+void operator delete[](void* p, std::size_t) noexcept { sim::counted_free(p); }
+void operator delete(void* p, const std::nothrow_t&) noexcept { sim::counted_free(p); }
+void operator delete[](void* p, const std::nothrow_t&) noexcept { sim::counted_free(p); }
+
 namespace sim {
 
 struct Args {
